@@ -261,6 +261,71 @@ def script_pair(spec):
     return {"id": spec["id"], "steps": [{"kind": "accept", "a": a, "b": b}]}
 
 
+def multi_case(spec):
+    """several orders on ONE helper; script of ("reg"|"rep"|"cxl", order index)"""
+    import sys
+    if __import__("harness").REPO not in sys.path:
+        sys.path.insert(0, __import__("harness").REPO)
+    from asyncfix.fix_tester import FIXTester
+    from asyncfix.protocol.order_single import FIXNewOrderSingle
+    from asyncfix.protocol.common import FOrdStatus, FExecType
+    from asyncfix import FTag
+    ft = FIXTester(schema=None)
+    orders, nrep, steps = {}, {}, []
+    err = ""
+    try:
+        for act, i in spec["script"]:
+            if act == "reg":
+                o = FIXNewOrderSingle("m%d" % i, "TICK", "1", 10.0, 10.0)
+                o.new_req()
+                ft.order_register_single(o)
+                orders[i], nrep[i] = o, 0
+                continue
+            o = orders[i]
+            if act == "cxl":
+                if o.can_cancel():
+                    ft.fix_cxl_request(o)
+                continue
+            k = nrep[i]
+            nrep[i] += 1
+            if o.status == FOrdStatus.PENDING_CANCEL:
+                continue
+            if k == 0:
+                msg = ft.fix_exec_report_msg(o, o.clord_id, FExecType.PENDING_NEW, FOrdStatus.PENDING_NEW)
+            elif k == 1:
+                msg = ft.fix_exec_report_msg(o, o.clord_id, FExecType.NEW, FOrdStatus.NEW)
+            else:
+                cum = o.cum_qty + 1
+                msg = ft.fix_exec_report_msg(o, o.clord_id, FExecType.TRADE, FOrdStatus.PARTIALLY_FILLED if cum < 10 else FOrdStatus.FILLED,
+                                             cum_qty=cum, leaves_qty=10 - cum, last_qty=1)
+            o.process_execution_report(msg)
+            steps.append({"o": i, "orderid": str(msg[FTag.OrderID]), "execid": str(msg[FTag.ExecID])})
+    except Exception as ex:
+        err = type(ex).__name__ + ":" + str(ex)[:80]
+    return {"id": spec["id"], "multi": True, "steps": steps, "harness_error": err}
+
+
+def multi_scripts(maxlen):
+    acts = [(a, i) for i in (0, 1) for a in ("reg", "rep", "cxl")]
+    out = []
+    for L in range(2, maxlen + 1):
+        for s in itertools.product(acts, repeat=L):
+            reg = set()
+            ok = True
+            for a, i in s:
+                if a == "reg":
+                    if i in reg:
+                        ok = False
+                        break
+                    reg.add(i)
+                elif i not in reg:
+                    ok = False
+                    break
+            if ok and len(reg) == 2 and sum(1 for a, _ in s if a == "rep") >= 2:
+                out.append(list(s))
+    return out
+
+
 def run(ctx):
     out = Outcome()
     q = ctx.quick
@@ -284,8 +349,16 @@ def run(ctx):
     scripts = [list(s) for L in range(0, (3 if q else 4) + 1) for s in itertools.product(ACTS, repeat=L)]
     ctx.log("(b) %d clean session scripts against the helper's acceptor and a real acceptor" % len(scripts))
     recs += pmap(script_pair, [{"id": "s%d" % i, "script": s} for i, s in enumerate(scripts)])
+    ms = multi_scripts(5 if q else 6)
+    mspecs = [{"id": "m%d" % i, "script": s2} for i, s2 in enumerate(ms)]
+    ctx.log("(c) %d interleavings of two orders registered with one helper" % len(ms))
+    mrecs = pmap(multi_case, mspecs)
+    for mr in mrecs:
+        if mr["harness_error"]:
+            raise tlc.MachineryError("multi-order script failed in the harness: %s %s" % (mr["id"], mr["harness_error"]))
+    recs += mrecs
     verd = tlc.evaluate(ctx.sub("eval"), "TesterEval", recs, shard_size=max(20, len(recs) // 16 + 1), jobs=16, env={"DICT_FILE": df}, timeout=2400, heap="4g")
-    allin = specs + [{"id": "session_factories"}] + [{"id": "s%d" % i, "script": s} for i, s in enumerate(scripts)]
+    allin = specs + [{"id": "session_factories"}] + [{"id": "s%d" % i, "script": s} for i, s in enumerate(scripts)] + mspecs
     for rec, v, sp in zip(recs, verd, allin):
         out.traces += 1
         out.clause_hits["fabricated_messages_judged"] = out.clause_hits.get("fabricated_messages_judged", 0) + v["n"]
@@ -304,7 +377,9 @@ def run(ctx):
             seen.add(f["clause"])
             st = rec["steps"][f["step"] - 1]
             det = {k: st.get(k) for k in ("kind", "ord", "a", "r", "execid", "orderid", "processed", "mt") if k in st}
-            if st["kind"] == "accept":
+            if rec.get("multi"):
+                det = {"script": sp["script"], "reports": rec["steps"]}
+            elif st["kind"] == "accept":
                 diff = [i for i, (x, y) in enumerate(zip(st["a"], st["b"])) if x != y]
                 det = {"script": sp.get("script"), "first_difference_at_step": diff[:1], "helper": st["a"][diff[0]] if diff else st["a"][-1:], "real": st["b"][diff[0]] if diff else st["b"][-1:]}
             out.failures.append({"clause": f["clause"], "triggers": [], "input": sp, "detail": det, "trace": None})
@@ -322,7 +397,7 @@ def replay(ctx, inp):
     df = os.path.join(ctx.sub("dict"), "FIX44.json")
     with open(df, "w") as fh:
         json.dump(d, fh)
-    rec = script_pair(inp) if "script" in inp else (session_factories(None) if inp.get("id") == "session_factories" else execute(inp))
+    rec = multi_case(inp) if str(inp.get("id", "")).startswith("m") else script_pair(inp) if "script" in inp else (session_factories(None) if inp.get("id") == "session_factories" else execute(inp))
     verd = tlc.evaluate(ctx.sub("eval"), "TesterEval", [rec], env={"DICT_FILE": df})
     out.traces = 1
     for f in verd[0]["fails"]:
